@@ -315,6 +315,9 @@ pub enum Op {
     Translate { slot: usize, d: C },
     FloatOp { slot: usize, k: u8 },
     Orient { slot: usize, k: u8 },
+    /// read-only accessors and predicates on every live object (a lazily maintained cache or a
+    /// "validated" flag set by a getter would make LATER mutators misbehave)
+    Observe,
     /// a geo algorithm that builds NEW polygons / rects from a pool polygon (orient, simplify,
     /// convex hull, smoothing, boolean ops, bounding rect …): the results join the pool
     GeoDerive { slot: usize, k: u8 },
@@ -390,6 +393,7 @@ pub fn op_name(op: &Op) -> &'static str {
         Op::FloatOp { .. } => "affine_transform_mut",
         Op::Orient { .. } => "reverse rings through exterior_mut/interiors_mut",
         Op::GeoDerive { .. } => "geo algorithm deriving new polygons/rects",
+        Op::Observe => "read-only accessors",
         Op::RectNew { .. } => "Rect::new",
         Op::RectSet { .. } => "Rect::set_min/set_max",
         Op::RectSetRaw { .. } => "Rect::set_min/set_max (arbitrary corner)",
@@ -817,6 +821,25 @@ impl<T: Scalar> State<T> {
                 if let Some(i) = self.slot(*slot) {
                     T::float_op(&mut self.polys[i], *k);
                 }
+            }
+            Op::Observe => {
+                let mut acc = 0usize;
+                for p in &self.polys {
+                    acc += p.exterior().is_closed() as usize;
+                    acc += p.interiors().iter().filter(|r| r.is_closed()).count();
+                    acc += p.num_rings() + p.num_interior_rings();
+                    acc += p.exterior().0.len() + p.exterior().lines().count() + p.exterior().points().count();
+                    let c = p.clone();
+                    acc += (c == *p) as usize;
+                    let _ = format!("{:?}", p).len();
+                }
+                for r in &self.rects {
+                    let _ = (r.min(), r.max(), r.width(), r.height());
+                    acc += r.to_lines().len();
+                    let c = *r;
+                    acc += (c == *r) as usize;
+                }
+                std::hint::black_box(acc);
             }
             Op::GeoDerive { slot, k } => {
                 if let Some(i) = self.slot(*slot) {
@@ -1347,7 +1370,9 @@ pub fn gen_op(rng: &mut Rng) -> Op {
         30 => Op::Translate { slot, d: gen_c(rng) },
         31 => Op::FloatOp { slot, k: rng.below(4) as u8 },
         32 => {
-            if rng.chance(1, 2) {
+            if rng.chance(1, 3) {
+                Op::Observe
+            } else if rng.chance(1, 2) {
                 Op::Orient { slot, k: rng.below(4) as u8 }
             } else {
                 Op::GeoDerive { slot, k: rng.below(18) as u8 }
